@@ -189,6 +189,22 @@ def decide_runs(A, B, select, label, **kw):
         if not bad:
             return "unreproduced", info
         info = dict(info); info["_real_api_rel_dev"] = d
+    elif verdict in ("sat", "unknown"):
+        # a solver model (or no verdict) over DAGs that contain opaque stub outputs says nothing by itself: replay
+        # the model's input values (sampled ones where the model is silent) through both closures on the real API
+        import numpy as _np
+        stub = getattr(kw.get("resolver"), "__self__", None)          # inputs hidden behind the stub's outputs count too
+        sup = stub.deep_support(list(la) + list(lb)) if hasattr(stub, "deep_support") else sym.support(*la, *lb)
+        names = sorted(n for n in sup if not (kw.get("opaque_prefix") and n.startswith(kw["opaque_prefix"])))
+        env = sample_env(names, kw.get("rng") or _np.random.default_rng(0))
+        if isinstance(info, dict):
+            env.update({k: float(v) for k, v in info.items() if k in env and v == v and abs(v) < 1e6 and (not is_positive_name(k) or v > 1e-3)})
+        try:
+            bad, d = simenc.real_api_differs(A, B, select, env)
+        except Exception:
+            return verdict, info
+        if bad:
+            return "differs", dict(env, _real_api_rel_dev=d, _solver_verdict=verdict)
     return verdict, info
 
 
